@@ -410,10 +410,12 @@ func (e *Env) clientOps(i int, tn string, c *cli, ops []string) {
 			rr.SendAttempt = append(rr.SendAttempt, tag(i, "c", 0))
 			req := newMsg(i, "c", 0)
 			own := e.own(req, tag(i, "c", 0), "Invoke")
+			ownD := e.own(&resp, tag(i, "d", 0), "Invoke")
 			e.where("client:Invoke")
 			err := e.ch.Invoke(e.ctx, e.method(i), req, &resp, grpc.Header(&c.hdr), grpc.Trailer(&c.trl))
 			e.where("")
 			own.returned()
+			ownD.returned()
 			e.nlock()
 			rr.RecvRes = append(rr.RecvRes, es(err))
 			if err == nil {
@@ -487,9 +489,11 @@ func (e *Env) clientOps(i int, tn string, c *cli, ops []string) {
 				e.nlock()
 				rr.CliRecvStarted++
 				e.nunlock()
+				ownD := e.own(&m, tag(i, "d", len(rr.RecvRes)), "RecvMsg")
 				e.where("client:RecvMsg")
 				err := c.stream.RecvMsg(&m)
 				e.where("")
+				ownD.returned()
 				e.nlock()
 				rr.RecvRes = append(rr.RecvRes, es(err))
 				e.nunlock()
